@@ -20,11 +20,11 @@ import (
 
 type crashStats struct {
 	Ops, Runs, CrashPoints, Restarts, EffectsInReference int
-	Configs                                             []string
-	EffectHist                                          map[string]int
-	OutcomeHist                                         map[string]int
-	Monitors, Notes, Samples                            []string
-	Exhaustive                                          bool
+	Configs                                              []string
+	EffectHist                                           map[string]int
+	OutcomeHist                                          map[string]int
+	Monitors, Notes, Samples                             []string
+	Exhaustive                                           bool
 }
 
 type crashRun struct {
@@ -141,6 +141,7 @@ func (r *crashRun) ceremony(outDir string, n, t, obsIdx int, crashAt []int, repo
 		}
 	}
 	repolls := 0
+	dupReported := false
 	pump := func(maxRounds int) {
 		for i := 0; i < maxRounds; i++ {
 			moved := 0
@@ -185,6 +186,17 @@ func (r *crashRun) ceremony(outDir string, n, t, obsIdx int, crashAt []int, repo
 			}
 			for _, nd := range c.nodes {
 				if nd == obs {
+					// exactly once in effect: a board message that is handled again after a restart must not leave a second
+					// operation for the same request (same round, type and request payload) in the pool
+					seenReq := map[string]string{}
+					for _, op := range nd.pendingOps() {
+						key := string(op.Type) + "/" + op.DKGIdentifier + "/" + string(op.Payload)
+						if first, dup := seenReq[key]; dup && first != op.ID && !dupReported {
+							dupReported = true
+							r.mon(fmt.Sprintf("C13 exactly_once %s crash before durable effect %s: the restarted node offers the same %s request twice (operations %.8s… and %.8s…): a message handled again after the restart left a second operation", tag, strings.Join(k.hitDesc, " / "), op.Type, first, op.ID))
+						}
+						seenReq[key] = op.ID
+					}
 					for _, op := range nd.pendingOps() {
 						k.context = "ProcessOperation(" + string(op.Type) + ")"
 						c.answerOp(nd, op)
